@@ -170,6 +170,18 @@ def check_mangle(case, col):
                          % (k, how, len(b), level, v[1]), case)
             elif v[0] is None:
                 col.bump('derived-silent:%s' % v[1])
+            if v[0] is not False and level in (2, 3):
+                # the form the helpers document as their target at levels 2-3 (ECMA-119 7.5.1 / 7.6.3): name + extension of a file
+                # at most 30 characters, a directory identifier at most 31
+                if k == 'dir':
+                    over = len(b) > 31
+                else:
+                    dn_, de_, _dv = legal.split_file_identifier(b)
+                    over = len(dn_) + len(de_ or b'') > 30
+                if over:
+                    col.fail('C18/b/derived-illegal/%s/l2-3/longer-than-%d/%s' % (k, 31 if k == 'dir' else 30, cause(level, name)), 'b',
+                             'derived %s identifier (%s composition) %r... has %d bytes: longer than the %s the helpers truncate to at level %d'
+                             % (k, how, d[:12], len(b), '31 characters' if k == 'dir' else '30 characters of name + extension', level), case)
         # (c) identity on already-legal input
         ok, trunc = already_legal(level, k, name)
         if ok:
